@@ -341,7 +341,64 @@ class SimStatic(Component):
         pass
 
 
-KINDS = {"sim": SimComp, "pull": SimPull, "sink": SimSink, "wsum": make_wsum, "static": SimStatic}
+# ------------------------------------------------------------ real library components
+def _k_of(spec, t):
+    return (tick(t) - spec["start"]) // spec["steps"][0]
+
+
+def make_cbgen(spec, world):
+    """REAL finam.components.CallbackGenerator standing in for an input-less time-stepped producer"""
+    from finam.components import CallbackGenerator
+    cbs = {o["name"]: ((lambda t, o=o: float(o["base"] + _k_of(spec, t) * o.get("inc", 1))),
+                       Info(time=None, grid=NoGrid(), units=o.get("units", ""))) for o in spec["outputs"]}
+    comp = CallbackGenerator(cbs, start=dt(spec["start"]), step=td(spec["steps"][0]))
+    comp.with_name(spec["name"])
+    comp.pulls = {}
+    return comp
+
+
+def make_dbgcons(spec, world):
+    """REAL finam.components.DebugConsumer standing in for an output-less time-stepped consumer"""
+    from finam.components import DebugConsumer
+    seen = set()
+
+    def cb(name, data, time):
+        first = name not in seen
+        if not first and comp.status not in (ComponentStatus.VALIDATED, ComponentStatus.UPDATED):
+            return      # DebugConsumer repeats the callback for already pulled data on every connect call
+        seen.add(name)
+        k = "init" if first else _k_of(spec, time) - 1
+        comp.pulls[name].append((k, world.t0 if first else tick(time), mag(data)))
+    comp = DebugConsumer({i["name"]: Info(time=None, grid=NoGrid(), units=i.get("units")) for i in spec["inputs"]},
+                         start=dt(spec["start"]), step=td(spec["steps"][0]),
+                         callbacks={i["name"]: cb for i in spec["inputs"]})
+    comp.with_name(spec["name"])
+    comp.pulls = {i["name"]: [] for i in spec["inputs"]}
+    return comp
+
+
+def make_cbcomp(spec, world):
+    """REAL finam.components.CallbackComponent (inputs -> outputs, pulls everything initially)"""
+    from finam.components import CallbackComponent
+    state = {"init": True}
+
+    def cb(inp, time):
+        first = state["init"]
+        state["init"] = False
+        k = _k_of(spec, time)
+        if inp is not None:
+            for name, d in inp.items():
+                comp.pulls[name].append(("init" if first else k - 1, world.t0 if first else tick(time), mag(d)))
+        return {o["name"]: float(o["base"] + k * o.get("inc", 1)) for o in spec["outputs"]}
+    comp = CallbackComponent(inputs={i["name"]: Info(time=None, grid=NoGrid(), units=i.get("units")) for i in spec["inputs"]},
+                             outputs={o["name"]: Info(time=None, grid=NoGrid(), units=o.get("units", "")) for o in spec["outputs"]},
+                             callback=cb, start=dt(spec["start"]), step=td(spec["steps"][0]))
+    comp.with_name(spec["name"])
+    comp.pulls = {i["name"]: [] for i in spec["inputs"]}
+    return comp
+
+
+KINDS = {"cbgen": make_cbgen, "dbgcons": make_dbgcons, "cbcomp": make_cbcomp, "sim": SimComp, "pull": SimPull, "sink": SimSink, "wsum": make_wsum, "static": SimStatic}
 
 
 # ----------------------------------------------------------------------------- world
@@ -366,7 +423,10 @@ class World:
     def build(self, comp_factory=None):
         sc = self.sc
         for ci, c in enumerate(sc["components"]):
-            cls = KINDS[c["kind"]] if comp_factory is None else (comp_factory(c) or KINDS[c["kind"]])
+            cls = KINDS[c.get("impl") or c["kind"]] if comp_factory is None else \
+                (comp_factory(c) or KINDS[c.get("impl") or c["kind"]])
+            if c.get("impl"):
+                self.fault("real_component_" + c["impl"])
             comp = cls(c, self)
             self.comps.append(comp)
             self.labels[id(comp)] = c["name"]
